@@ -104,6 +104,47 @@ type Opt struct {
 	Over map[string]string
 	// Vals overrides the number of values per field (0 = 3 for up to three fields, else 2).
 	Vals int
+	// Cross names the behaviour of a local instance function of the derived typeclass that
+	// takes an instance of ANOTHER typeclass for the element type of a sequence field; the
+	// element type's entry in Over says which instance of that other typeclass the documented
+	// precedence selects. "sorted": Show prints "<sorted:e1,e2>" in the (stable) order of the
+	// element Ord; "dedupe": Monoid appends the elements of b that are not Eq-equal to one of a.
+	Cross string
+}
+
+func stringElems(v reflect.Value) ([]string, bool) {
+	if v.Kind() != reflect.Slice || v.Type().Elem().Kind() != reflect.String {
+		return nil, false
+	}
+	out := make([]string, v.Len())
+	for i := range out {
+		out[i] = v.Index(i).String()
+	}
+	return out, true
+}
+
+// refShowSorted is what the marker ShowSeq prints for a sequence of strings.
+func refShowSorted(sem string, els []string) string {
+	c := append([]string(nil), els...)
+	sort.SliceStable(c, func(i, j int) bool { return refCmpString(sem, c[i], c[j]) < 0 })
+	return "<sorted:" + strings.Join(c, ",") + ">"
+}
+
+// refDedupe is the Combine of the marker MonoidSeq.
+func refDedupe(sem string, a, b []string) []string {
+	r := append([]string(nil), a...)
+	for _, y := range b {
+		dup := false
+		for _, x := range a {
+			if normString(sem, x) == normString(sem, y) {
+				dup = true
+			}
+		}
+		if !dup {
+			r = append(r, y)
+		}
+	}
+	return r
 }
 
 func typeKey(t reflect.Type) string {
@@ -387,7 +428,12 @@ func domOf(t reflect.Type, p Opt, depth int) []gen {
 		if len(ed) > 1 {
 			out = append(out, mk(1, 0))
 			if p.sem(t) != "" {
-				out = append(out, mk(0, 1))
+				// the sequence instance is a local one: more values, so that the candidate
+				// element instances (natural, W, P) give different results
+				out = append(out, mk(0, 1), mk(1))
+				if len(ed) > 2 {
+					out = append(out, mk(2), mk(2, 0))
+				}
 			}
 		}
 		return out
@@ -527,8 +573,8 @@ func buildDomain[T any](p Opt) *domain[T] {
 	for i := range comps {
 		c := domOf(t.Field(i).Type, p, 2)
 		limit := per
-		if p.sem(t.Field(i).Type) != "" && limit < 4 {
-			limit = 4 // an overridden field keeps all its values
+		if p.sem(t.Field(i).Type) != "" && limit < 7 {
+			limit = 7 // an overridden field keeps all its values
 		}
 		if len(c) > limit {
 			c = c[:limit]
@@ -839,6 +885,17 @@ func CheckMonoid[T any](o *Out, id string, inst fp.Monoid[T], p Opt) {
 					seen[k] = cf[i][j][f]
 					by[k] = [2]int{i, j}
 				}
+				if p.Cross == "dedupe" {
+					if a, ok := stringElems(fieldValue(vs.rv[i], f)); ok {
+						b, _ := stringElems(fieldValue(vs.rv[j], f))
+						got, _ := stringElems(fieldValue(rvOf(comb[i][j]), f))
+						sem := p.sem(fieldType(vs.d.t, f).Elem())
+						nPrec++
+						if want := refDedupe(sem, a, b); fmt.Sprint(got) != fmt.Sprint(want) && failPrec == "" {
+							failPrec = fmt.Sprintf("field %q of Combine(%s, %s) is %q; the local MonoidSeq with the Eq instance the documented precedence selects for the element type (%q) gives %q", names[f], vs.d.descs[i], vs.d.descs[j], got, sem, want)
+						}
+					}
+				}
 				if sem := p.sem(fieldType(vs.d.t, f)); sem != "" && fieldType(vs.d.t, f).Kind() == reflect.String {
 					if want, ok := refCombineString(sem, fieldValue(vs.rv[i], f).String(), fieldValue(vs.rv[j], f).String()); ok {
 						nPrec++
@@ -851,7 +908,7 @@ func CheckMonoid[T any](o *Out, id string, inst fp.Monoid[T], p Opt) {
 		}
 	}
 	o.res(id, "monoid-fieldwise", n, fail)
-	if nPrec > 0 || len(p.Over) > 0 {
+	if nPrec > 0 || len(p.Over) > 0 || p.Cross != "" {
 		o.res(id, "monoid-precedence", nPrec, failPrec)
 	}
 	// associativity
@@ -1092,11 +1149,12 @@ func CheckShow[T any](o *Out, id string, inst fp.Show[T], p Opt) {
 	want := ""
 	hasOverField := false
 	for f := 0; f < vs.d.nfield; f++ {
-		if s := p.sem(fieldType(vs.d.t, f)); s != "" {
+		if s := p.sem(fieldType(vs.d.t, f)); s == "W" || s == "P" || s == "D" || s == "I" {
 			want = s
 			hasOverField = true
 		}
 	}
+	failCross, nCross := "", 0
 	outs := map[string]bool{}
 	for i := range vs.v {
 		n++
@@ -1105,6 +1163,17 @@ func CheckShow[T any](o *Out, id string, inst fp.Show[T], p Opt) {
 		outs[s1] = true
 		if s1 != s2 && fail == "" {
 			fail = fmt.Sprintf("Show(%s) = %q, then %q", vs.d.descs[i], s1, s2)
+		}
+		if p.Cross == "sorted" {
+			for f := 0; f < vs.d.nfield; f++ {
+				if els, ok := stringElems(fieldValue(vs.rv[i], f)); ok {
+					nCross++
+					want := refShowSorted(p.sem(fieldType(vs.d.t, f).Elem()), els)
+					if !strings.Contains(s1, want) && failCross == "" {
+						failCross = fmt.Sprintf("Show(%s) = %q does not contain %q: the local ShowSeq must be given the Ord instance the documented precedence selects for the element type (%q)", vs.d.descs[i], s1, want, p.sem(fieldType(vs.d.t, f).Elem()))
+					}
+				}
+			}
 		}
 		if hasOverField && failPrec == "" {
 			for _, tag := range []string{"W", "P", "D", "I"} {
@@ -1117,6 +1186,9 @@ func CheckShow[T any](o *Out, id string, inst fp.Show[T], p Opt) {
 	o.res(id, "show-deterministic", n, fail)
 	if hasOverField {
 		o.res(id, "show-precedence", n, failPrec)
+	}
+	if p.Cross == "sorted" {
+		o.res(id, "show-cross-typeclass-precedence", nCross, failCross)
 	}
 	if len(outs) > 1 {
 		o.Count("show-targets-with-distinct-outputs", 1)
